@@ -45,6 +45,7 @@ PROP = Property(
         "no arithmetic overflow for any u64 inputs; from these: <= margin, whole steps, monotone in the tip, transactions beacon ends a complete block range",
         [TXF, BLF, "signed_entity_config::compute_block_number_to_be_signed", "BlockRange::start", "BlockRange::start_with_length", "BlockRange::is_fully_covered_at"],
         paired_kani=["c17_transactions_no_panic_any_step", "c17_transactions_le_margin_and_within_one_step", "c17_blocks_le_margin_and_within_one_step"])],
+    replays=[dict(crate="mithril-common", file=SEC, module="replays/c17_beacon.rs")],
     assumptions=[
         "machine integers: Kani bit-precise u64 with overflow checks as in debug builds; Verus exec u64 with overflow obligations, spec integers mathematical",
         "operator impls of BlockNumber are assumed in Verus with exactly the contracts the c17_op_* Kani harnesses prove on the real macro-generated impls",
